@@ -454,6 +454,9 @@ func (m *RecFSM) Snapshot(w io.Writer) error {
 	if sf, ok := w.(*MemSnapFile); ok {
 		sf.local = true
 	}
+	if ml, ok := w.(interface{ MarkLocal() }); ok {
+		ml.MarkLocal()
+	}
 	_, err := w.Write(EncodeList(list, m.Pad))
 	return err
 }
